@@ -53,6 +53,8 @@ Full statement / proved / missing
                          hash-literal shape `DefShape`), any two of its types and any two instances made by either
                          constructor, `Equals` is total and characterised as in `C17_equality` — the hypotheses `WF`, `Valid`
                          and `hname` are all discharged (`C17_wf_env`, `C17_typed_env`, `C17_valid_named`, `C17_names_identify`).
+* `C17_laws_env`       — proved, END TO END: for any accepted list of definitions, any of its types and any values — Get = given or
+                         default, positional = named, and the init-hash round trip for every instance EITHER constructor makes.
 * `C17_subtype`        — proved: an ancestor (any non-empty suffix of the level list) accepts every instance;
                          `C17_subtype_strict`: a type never accepts an instance of a proper ancestor.
 * `C17_instance_closure` — proved: among the types of one loader (`defineAll [] ds = .ok env`, any number of definitions)
@@ -1570,6 +1572,42 @@ theorem C17_equality_env {ds : List Def} {env : List OType} (h : defineAll [] ds
     exact C17_names_identify h hi hj
   exact ⟨C17_equals_total hw hw' hov hov' hname, C17_equality hw hw' hov hov' hname⟩
 
+/-- END TO END, the construction laws: for any accepted list of definitions, any of its types `t` and any values:
+    (1) a positional construction reads every attribute back as the value given or the default, (2) its named twin exists and
+    is Equal in both directions, and (3) EVERY instance — made by either constructor — is rebuilt from its init-hash into an
+    Equal instance -/
+theorem C17_laws_env {ds : List Def} {env : List OType} (h : defineAll [] ds = .ok env)
+    (hds : ∀ d ∈ ds, DefShape d) {t : OType} (ht : t ∈ env) (hv : Val) :
+    (∀ vs o, newPos t vs = .ok o →
+      (∀ (i : Nat) (a : Attr), (posAttrs t)[i]? = some a → get o a.name = .ok (some ((vs[i]?).getD a.implicitT))) ∧
+      (∃ o', newNamed t (toHash (posAttrs t) vs) hv = .ok o' ∧ equals o o' = .ok true ∧ equals o' o = .ok true)) ∧
+    (∀ o, ((∃ vs, newPos t vs = .ok o) ∨ (∃ es hv', newNamed t es hv' = .ok o)) →
+      ∃ o', newNamed t (initHash o) hv = .ok o' ∧ equals o' o = .ok true ∧ equals o o' = .ok true) := by
+  have hw : WF t := (C17_wf_env (env0 := []) (by simp) hds h t ht).2
+  have hty : TypeTyped t := C17_typed_env (env0 := []) (by simp) h t ht
+  constructor
+  · intro vs o hn
+    refine ⟨fun i a ha => C17_get hw hn ha, ?_⟩
+    obtain ⟨o', h1, -, h2, h3, -⟩ := C17_pos_named hv hw hn
+    exact ⟨o', h1, h2, h3⟩
+  · intro o ho
+    have hot : o.typ = t ∧ Valid o := by
+      rcases ho with ⟨vs, hx⟩ | ⟨es, hv', hx⟩
+      · exact ⟨by rw [(newPos_ok hx).1], valid_newPos hx⟩
+      · refine ⟨?_, C17_valid_named hw hty hx⟩
+        unfold newNamed at hx
+        by_cases hm : namedMatches (attrInfo t) es = true
+        · by_cases hc : coerceOk (attrInfo t) es = true
+          · simp only [hm, hc, if_true, pfh_result hm] at hx
+            cases hx; rfl
+          · simp [hm, hc] at hx
+        · simp only [hm, Bool.false_eq_true, if_false] at hx
+          rw [(newPos_ok hx).1]
+    obtain ⟨hto, hvo⟩ := hot
+    obtain ⟨o', h1, -, h2, h3, -⟩ := C17_inithash hv (by rw [hto]; exact hw) hvo
+    rw [hto] at h1
+    exact ⟨o', h1, h2, h3⟩
+
 /-! ### the definition re-created from the InitHash of the type it defined -/
 
 /-- FULL statement: every accepted definition, re-created from the InitHash of the type it defined (`typeDef`, what
@@ -1690,6 +1728,14 @@ example : get { typ := sampleT3, values := [.str "x"] } "a" = .ok (some (.int 3)
 example : ∃ b, equals { typ := sampleT2, values := [.int 1] } { typ := sampleT0, values := [.int 1] } = .ok b :=
   (C17_equality_env (rfl : defineAll [] sampleDefs = .ok sampleEnv) sampleShape (i := 2) (j := 0) rfl rfl
     (Or.inl ⟨[.int 1], rfl⟩) (Or.inr ⟨[("a", .int 1)], .hash "", rfl⟩)).1
+
+/-- hypotheses of `C17_laws_env`: the grand-child of the sample; the round trip of an instance made BY NAME -/
+example : ∃ o', newNamed sampleT2 (initHash { typ := sampleT2, values := [.int 1, .bool false] }) (.hash "") = .ok o' ∧
+    equals o' { typ := sampleT2, values := [.int 1, .bool false] } = .ok true := by
+  obtain ⟨o', h1, h2, -⟩ := (C17_laws_env (rfl : defineAll [] sampleDefs = .ok sampleEnv) sampleShape
+    (t := sampleT2) (by decide) (.hash "")).2 { typ := sampleT2, values := [.int 1, .bool false] }
+    (Or.inr ⟨[("c", .bool false), ("a", .int 1)], .hash "", by decide⟩)
+  exact ⟨o', h1, h2⟩
 
 /-- hypotheses of `C17_valid_named`: the types of the sample hold well-typed defaults; a named construction on the grand-child -/
 example : TypeTyped sampleT2 :=
